@@ -1,0 +1,13 @@
+//go:build !verif
+
+package peers
+
+import "github.com/libp2p/go-libp2p/core/peer"
+
+// Verification hooks (see verif_on.go). Without the `verif` build tag they are empty and inlined away.
+
+func verifEv(any, string, peer.ID) {}
+
+func verifSpawn() any { return nil }
+
+func verifAdopt(any) {}
